@@ -387,8 +387,13 @@ def _driver(spec):
                 with open(argv["dst"], "wb") as d:
                     d.write(content)
                 emit(ev="action", what="copy", dst=argv["dst"])
+            elif argv.get("action") == "sleep":
+                # time passes in a long-lived process between two analyses
+                time.sleep(float(argv["s"]))
             continue
+        t_run = time.time()
         r = run_inproc(argv)
+        r["elapsed"] = round(time.time() - t_run, 3)
         emit(ev="report", rc=r["rc"], exc=r["exc"])
         sys.stdout.write("@@REPORT " + json.dumps(r) + "\n")
         sys.stdout.flush()
